@@ -742,7 +742,7 @@ Theorem resubmit_spec s rerun upd : inv s -> c_complete (st_cfg s) = true ->
     /\ js_jobs (st_js s') = map (reset_job rerun upd) (js_jobs (st_js s))
     /\ c_version (st_cfg s) < c_version (st_cfg s')
     /\ js_version (st_js s) < js_version (st_js s')
-    /\ c_canceled (st_cfg s') = c_canceled (st_cfg s)
+    /\ c_canceled (st_cfg s') = false
     /\ st_rows s' = diffN (st_rows s) rerun.
 Proof.
   intros [[Hnd [Hnum Hhash]] [I1 [I2 [I3 [I4 [I5 I6]]]]]] Kc.
@@ -757,7 +757,7 @@ Proof.
   set (ns := Z.of_nat (length (filter (fun j => negb (memN (j_name j) rerun) && negb (jstate_eqb (j_state j) NOT_SUBMITTED)) jobs))) in *.
   set (nd := Z.of_nat (length (filter (fun j => negb (memN (j_name j) rerun) && jstate_eqb (j_state j) DONE) jobs))) in *.
   set (c1 := {| c_num := c_num (st_cfg s); c_submitted := ns;
-                c_completed := nd; c_complete := false; c_canceled := c_canceled (st_cfg s);
+                c_completed := nd; c_complete := false; c_canceled := false;
                 c_submitter := c_submitter (st_cfg s); c_version := c_version (st_cfg s) |}).
   destruct (ser_spec (st_cfg s) c1 (st_hash s) Hhash eq_refl) as [Sh [Sc [Sv1 Sv2]]].
   destruct (serialize_cfg c1 (st_hash s)) as [c' h'] eqn:Eser. cbn [fst snd] in Sh, Sc, Sv1, Sv2.
@@ -931,7 +931,7 @@ Lemma resubmit_reset s rerun upd : wf s -> status_inv s -> c_complete (st_cfg s)
     /\ js_jobs (st_js s') = map (reset_job rerun upd) (js_jobs (st_js s))
     /\ c_version (st_cfg s) < c_version (st_cfg s')
     /\ js_version (st_js s) < js_version (st_js s')
-    /\ c_canceled (st_cfg s') = c_canceled (st_cfg s)
+    /\ c_canceled (st_cfg s') = false
     /\ st_rows s' = diffN (st_rows s) rerun.
 Proof.
   intros W I H. destruct (resubmit_spec s rerun upd (conj W I) H) as [s' [E [[W' I'] R]]]. exists s'. auto.
